@@ -107,7 +107,7 @@ class NetScenario:
                 self.do(f"net {r.choice(['shutdown', 'flush', 'flush'])} {r.choice(openc)}")
             elif a < 0.95 and openc:
                 n = r.choice(openc)
-                self.do(f"net close {n}")
+                self.do(f"net {r.choice(['close', 'close', 'closewr'])} {n}")
                 self.calls[n]["state"] = "closed"
             elif a < 0.97:
                 pend = [n for n, c in self.calls.items() if c["state"] == "pending"]
@@ -147,7 +147,7 @@ class NetScenario:
             elif c["state"] == "open":
                 if r.random() < 0.5:
                     self.do(f"net shutdown {name}")
-                self.do(f"net close {name}")
+                self.do(f"net {r.choice(['close', 'closewr'])} {name}")
         for rnd in range(16):
             self.pump(200, clean=True)
             self.do(f"net adv {r.choice([500_000_000, 1_000_000_000])}")
@@ -406,7 +406,7 @@ class NetTrace:
                 self.calls[f"c{t[2]}"] = {"kind": "c", "tag": int(t[2]) % 100, "sock": int(t[3]), "to": int(t[4]), "w": 0, "read": bytearray(), "res": None, "eof": False, "closed": False, "shut": False, "first": i}
             elif t[1] == "accept" and out == "ok":
                 self.calls[f"a{t[2]}"] = {"kind": "a", "tag": 100 + int(t[2]) % 100, "sock": int(t[3]), "w": 0, "read": bytearray(), "res": None, "eof": False, "closed": False, "shut": False, "first": i}
-            elif t[1] in ("state", "write", "read", "shutdown", "flush", "close", "abort") and t[2] in self.calls:
+            elif t[1] in ("state", "write", "read", "shutdown", "flush", "close", "closewr", "abort") and t[2] in self.calls:
                 c = self.calls[t[2]]
                 if t[1] == "state" and (out.startswith("ok:") or out.startswith("err:")):
                     c["res"] = out
@@ -425,7 +425,7 @@ class NetTrace:
                         c["rerr"] = out
                 if t[1] == "shutdown" and out == "ok":
                     c["shut"] = True          # the writer was TOLD its shutdown succeeded
-                if t[1] in ("close", "abort"):
+                if t[1] in ("close", "closewr", "abort"):
                     c["closed"] = True
                     c.setdefault("closed_at", i)
             elif t[1] == "tables":
